@@ -82,6 +82,7 @@ type vAssocOpts struct {
 	blockWrite   bool
 	maxEntries   uint32
 	realWindow   bool // keep the TSN tracking window the constructor chose (32+ words)
+	fixedTSN     bool // initial TSN 0x7ffffffe
 	pickTSN      bool // initial TSNs from {2^32-2, 2^31-2, 5} instead of fully symbolic (multi-packet scenarios)
 }
 
@@ -102,6 +103,8 @@ func vNewAssocOpts(o vAssocOpts) (*Association, *vConn) {
 	var tsn uint32
 	if o.pickTSN {
 		tsn = []uint32{0xfffffffe, 0x7ffffffe, 5}[vPick(3)]
+	} else if o.fixedTSN {
+		tsn = 0x7ffffffe
 	} else {
 		tsn = nondetU32()
 	}
@@ -114,7 +117,7 @@ func vNewAssocOpts(o vAssocOpts) (*Association, *vConn) {
 		// the real sizes are covered by the C05 harnesses
 		a.payloadQueue = newReceivePayloadQueue(192)
 	}
-	if o.pickTSN {
+	if o.pickTSN || o.fixedTSN {
 		a.payloadQueue.init(7)
 	} else {
 		a.payloadQueue.init(nondetU32())
@@ -152,7 +155,11 @@ func (c *vClosedCtx) Value(any) any               { return nil }
 // vPair returns two established associations that are each other's peer.
 func vPair(o vAssocOpts) (*Association, *Association) {
 	a, _ := vNewAssocOpts(o)
-	b, _ := vNewAssocOpts(o)
+	ob := o
+	if o.pickTSN {
+		ob.pickTSN, ob.fixedTSN = false, true // only one side's initial TSN is varied
+	}
+	b, _ := vNewAssocOpts(ob)
 	a.peerVerificationTag, b.peerVerificationTag = b.myVerificationTag, a.myVerificationTag
 	a.payloadQueue.init(b.myNextTSN - 1)
 	b.payloadQueue.init(a.myNextTSN - 1)
